@@ -126,7 +126,7 @@ func runPoseidon2(r *vcore.Run) {
 			return
 		}
 		r.Count("pos2.constraints", ccsB.GetNbConstraints())
-		nSets := r.Pick(2, 3)
+		nSets := r.Pick(1, 3)
 		var a0, b0 []*big.Int
 		for vi := 0; vi < nSets; vi++ {
 			rng := r.Rand(fmt.Sprintf("%s/v%d", key, vi))
@@ -179,7 +179,7 @@ func runPoseidon2(r *vcore.Run) {
 				}
 			}
 			r.SampleClass("pos2/honest", rep)
-			if n == 2 && vi == 0 {
+			if n == 2 && vi == 0 && r.Thorough() {
 				// the asserting circuit through the real prover and verifier of the builder's back-end
 				nonce := newNonce()
 				w, _ := frontend.NewWitness(pos2Assignment(nonce, a, bb), k.mod)
